@@ -1,0 +1,31 @@
+//go:build verif
+
+package asm
+
+import (
+	"bytes"
+)
+
+// Verification hooks (build tag verif): expose the private encoders unchanged.
+
+func VerifNumSize(n uint32) int { return numSize(n) }
+
+func VerifWriteSize(n uint32) ([]byte, error) {
+	b := bytes.NewBuffer(nil)
+	_, err := writeSize(b, n)
+	return b.Bytes(), err
+}
+
+func VerifWriteSym(s string) ([]byte, error) {
+	b := bytes.NewBuffer(nil)
+	_, err := writeSym(b, s)
+	return b.Bytes(), err
+}
+
+func VerifBatchCodes() map[string]uint16 {
+	r := make(map[string]uint16)
+	for k, v := range batchCode {
+		r[k] = uint16(v)
+	}
+	return r
+}
